@@ -29,7 +29,7 @@ def P(pid, **kw):
 
 
 P('C01', claimed=True, needs_driver=True, level='other',
-  contracts=['synth_specialindex', 'synth_ugen', 'synth_optimizer', 'synth_synthdef_graph', 'synth_finish'], drivers=['vf.drivers.C01'],
+  contracts=['synth_specialindex', 'synth_ugen', 'synth_optimizer', 'synth_synthdef_graph', 'synth_finish', 'synth_newunit', 'synth_optdispatch'], drivers=['vf.drivers.C01'],
   level_text=('Discharged: the opcode numbers of every operator name and Python alias, and the selector each '
               'AbstractObject operator method passes (exhaustive finite obligations on the real tables); the '
               'constructor-time algebraic short-cuts and rate inference of the operator units for all operand '
